@@ -373,7 +373,42 @@ def lemma_next_backup_num(ctx):
                       z3.Not(z3.And(spec, num == N)))
         ctx.lemma(eng, "C09: backup numbers start at 1", p.pc, N >= 1)
     (ctx.passed if okn else ctx.fail)("witness: next_backup_num success path", "")
-    ctx.bounds = "directories of %d arbitrary sibling names (<= 10 characters) besides the file; UTF-8 names (non-UTF-8 siblings are the separate finding)" % n_ent
+    # ---- the arithmetic on its own, over the whole u64 range (names of <= 10 characters cannot spell numbers near u64::MAX):
+    # is_num_backup is replaced by "an arbitrary recognised number or none" per sibling
+    eng2 = ctx.engine("libxcp", loop_bound=3, timeout_s=600)
+    install_backup_env(ctx, eng2)
+    st2 = State()
+    b2 = View.fresh("base", 4, st2, 1)
+    entries2 = _mk_entries(eng2, st2, n_ent + 1, b2)
+    _install_readdir(ctx, eng2, entries2)
+    seen = []
+
+    def s_inb(eng, st, callee, args, dty):
+        n = eng.fresh_int(st, "u64", "backup_no")
+        return [Outcome(AggV("Option", 1, [n], "Some"), effect=lambda e, s2, a2: s2.ghost.setdefault("numbers", []).append(n)),
+                Outcome(AggV("Option", 0, [], "None"))]
+    eng2.add_summary(r"^is_num_backup::<", s_inb, front=True)
+    eng2.add_summary(r"^is_num_backup$", s_inb, front=True)
+    paths2 = eng2.run(fn_named(eng2.funcs, "next_backup_num").name, [RefV(Cell(OpaqueV("Path", "file", {"name": SStrV(b2)})))], st2)
+    ctx.paths += len(paths2)
+    big = 0
+    for p in paths2:
+        nums = p.ghost.get("numbers", [])
+        if p.status == "panic":
+            ctx.lemma(eng2, "C09: next_backup_num refuses (panics) only when a backup numbered u64::MAX already exists", p.pc,
+                      z3.Or(*[v.t == U64_MAX for v in nums]) if nums else z3.BoolVal(False))
+            continue
+        if p.status != "return" or any(is_errev(e) for e in p.trace) or not is_ok(p.ret):
+            continue
+        N = p.ret.fields[0].t
+        for v in nums:
+            big += 1
+            ctx.lemma(eng2, "C09: the new backup number is greater than every recognised backup number, over the whole u64 range (never a number already taken)",
+                      p.pc, N > v.t)
+        ctx.lemma(eng2, "C09: backup numbers start at 1", p.pc, N >= 1)
+    (ctx.passed if big else ctx.fail)("witness: next_backup_num with recognised siblings", "")
+    ctx.bounds = ("directories of %d arbitrary sibling names (<= 10 characters) besides the file, plus %d siblings with arbitrary recognised numbers in 0..=u64::MAX; "
+                  "UTF-8 names (non-UTF-8 siblings: separate lemma)" % (n_ent, n_ent + 1))
 
 
 def lemma_has_backup(ctx):
